@@ -60,7 +60,7 @@ private def optNat : Option Nat → Json
 
 def snap (e : Ep) : Json :=
   jobj [("closed", Json.bool e.closed), ("state", Json.str e.state), ("txbuf", jnat e.txBuf.length),
-        ("connbuf", jnat e.connBuf.length), ("rxbuf", jnat e.rx.buf.length), ("pq", jnat e.pqSources),
+        ("connbuf", jnat e.connBuf.length), ("rxbuf", jnat e.rx.buf.length), ("pq", jnat e.pqSources), ("txsrc", jnat e.txSrc),
         ("ka", optNat e.kaDeadline), ("idle", optNat e.idleDeadline), ("seg", jnat e.sendSegSize),
         ("in_sess", Json.bool e.inSess), ("in_term", Json.bool e.inTerm)]
 
